@@ -113,6 +113,28 @@ def _gen_direct(rng) -> dict:
     return case
 
 
+def gen_clash(rng) -> dict:
+    """Two or three DIFFERENT files with the same name from different directories inside one field's nested value, and
+    once more in a second field."""
+    name = rng.choice(["out.txt", "res", "data.nii.gz", "a b.txt", "x.", ".hidden", "out (1).txt"])
+    k = rng.choice([2, 3])
+    sets = [{"cls": "File", "paths": [f"n{i + 1}/{name}"]} for i in range(k)]
+    if rng.random() < 0.5:
+        sets.append({"cls": "Directory", "paths": [f"n1/{rng.choice(F.DIR_NAMES)}x"]})
+    leaves = [{"o": i} for i in range(len(sets))] + [{"o": 0}, {"a": rng.choice(F.ATOMS)}]
+    rng.shuffle(leaves)
+    shape = rng.choice(["l", "t", "d", "nested"])
+    if shape == "d":
+        v = {"d": [[{"a": f"k{i}"}, c] for i, c in enumerate(leaves)]}
+    elif shape == "nested":
+        v = {"l": [leaves[0], {"t": leaves[1:3]}, {"d": [[{"a": "k"}, {"l": leaves[3:]}]]}]}
+    else:
+        v = {shape: leaves}
+    fields = [{"name": "o0", "value": v}, {"name": "o1", "value": {"t": [{"o": 1}, {"o": 0}]}}]
+    return {"op": "collect", "via": "direct", "sets": sets, "objs": list(range(len(sets))), "fields": fields, "table": [],
+            "dest": "wf"}  # fmt: skip
+
+
 def gen_public(rng) -> dict:
     """Three writer nodes; node k writes sets into its own directory '@k'."""
     per_node = [[], [], []]
@@ -272,10 +294,13 @@ def finish(ctx, case, root, dest, before, err, res_values, src_objs, calls, ex_e
     if calls is not None:
         impl["copies"] = [
             {"src": sorted(F.rel(p, root) for p in c["self"].fspaths), "dst": sorted(F.rel(p, root) for p in c["out"].fspaths),
-             "op": F.fs_kind(sorted(c["self"].fspaths), sorted(c["out"].fspaths), c["out"] is c["self"])}
+             "op": c["op"]}
             for c in calls if "out" in c
         ]  # fmt: skip
-    spec_ok, why = oracle(case, root, dest, err, res_values, src_objs)
+    try:
+        spec_ok, why = oracle(case, root, dest, err, res_values, src_objs)
+    except OSError as e:  # whatever cannot be observed is a failed observation of the property, not a harness crash
+        spec_ok, why = False, f"collected files cannot be inspected: {core.exc_tag(e)}"
     ex = sorted({str(p) for o in src_objs for p in o.fspaths} | {str(dest / b) for b in before} | set(ex_extra))
     if calls is not None:
         q = F.model_request(case, root, dest, ex, "script", F.script_from_calls(calls))
@@ -449,6 +474,9 @@ def correspondence(ctx):
             d51 = r
     if any(f["id"] == "D57" for f in ctx.known()):
         ctx.finding("D57", d51 is not None and not d51["spec_ok"], d51["why"] if d51 else "witness missing from corpus")
+    for _ in range(ctx.pick(20, 150)):  # same name from several directories inside one field
+        runs.append(run_direct(ctx, gen_clash(ctx.rng), n)); n += 1  # noqa: E702
+        ctx.count("forced-clash-in-one-field")
     for _ in range(ctx.pick(160, 2500)):
         runs.append(run_direct(ctx, gen_direct(ctx.rng), n)); n += 1  # noqa: E702
     for _ in range(ctx.pick(30, 400)):
@@ -460,7 +488,7 @@ def search(ctx):
     """Broken tie: look for an input on which the implementation itself violates the property (no model involved)."""
     n = 100000
     for i in range(ctx.pick(600, 4000)):
-        r = run_direct(ctx, gen_direct(ctx.rng), n + i)
+        r = run_direct(ctx, gen_clash(ctx.rng) if i % 3 == 0 else gen_direct(ctx.rng), n + i)
         if not r["spec_ok"] and not reserved_name(r["case"]):
             ctx.judge(r["case"], r["impl"], None, False, what=r["why"])
             return
